@@ -98,6 +98,14 @@ JOBS = [
         description='angle difference, one-output overload (over the contract of the two-output form)'),
     Job('Math.LatFix', 'Math::LatFix', ['C16', 'C14'], description='latitude fixing'),
     Job('Math.atan2d', 'Math::atan2d', ['C16', 'C01', 'C14'], description='arctangent in degrees: range, quadrant, exact axes'),
+    # ---- text parsing (C10)
+    Job('DMS.InternalDecode', 'DMS::InternalDecode', ['C10', 'C13', 'C14'], unwind=14, strcap=13, timeout=600,
+        replace=[LOOKUP, 'Utility::nummatch'], description='DMS component parser (strings up to 12 characters, full unwinding: bounded)'),
+    Job('DMS.DecodeLatLon', 'DMS::DecodeLatLon', ['C10', 'C13', 'C14'], replace=[('DMS::Decode', dict(select=r'string', may_throw=True))],
+        description='latitude/longitude pair: coordinate order, hemisphere letters'),
+    Job('DMS.DecodeAngle', 'DMS::DecodeAngle', ['C10', 'C13', 'C14'], replace=[('DMS::Decode', dict(select=r'string', may_throw=True))], description='arc angle'),
+    Job('DMS.DecodeAzimuth', 'DMS::DecodeAzimuth', ['C10', 'C13', 'C14'], replace=[('DMS::Decode', dict(select=r'string', may_throw=True)), 'Math::AngNormalize'],
+        description='azimuth'),
 ]
 
 
@@ -117,11 +125,22 @@ NOT_BUILT = 'in reach of the technique (DESIGN.md section 5) but its contracts a
 NOT_APPLICABLE = {
     'C02': NUMERIC, 'C03': NUMERIC, 'C06': NUMERIC, 'C11': NUMERIC, 'C15': NUMERIC,
     'C17': NUMERIC + '; NearestNeighbor is a C++ template over user types that neither the C extraction nor the CBMC C++ front end can take',
-    'C01': NOT_BUILT, 'C07': NOT_BUILT, 'C08': NOT_BUILT, 'C09': NOT_BUILT, 'C10': NOT_BUILT,
+    'C01': NOT_BUILT, 'C07': NOT_BUILT, 'C08': NOT_BUILT, 'C09': NOT_BUILT,
     'C12': NOT_BUILT, 'C13': NOT_BUILT, 'C14': NOT_BUILT, 'C19': NOT_BUILT, 'C20': NOT_BUILT,
 }
 
 PROPS = {
+    'C10': dict(
+        level='proof',
+        level_text='Parser side: memory safety, index bounds and exception discipline of the DMS component parser and the angle/position decoders for '
+                   'all strings up to the stated capacity; alphabet lookup; hemisphere / coordinate-order logic of DecodeLatLon, DecodeAngle, DecodeAzimuth.',
+        level_note='Trusted: as C18; libstdc++ number parsing/printing is not modelled (fraction values are arbitrary). Formatters (DMS::Encode, Utility::str, '
+                   '*Representation), the encode->decode round trip, the unicode substitution table of DMS::Decode and the command-line tools are not decided.',
+        design_ref='DESIGN.md section 5, C10',
+        bounded=['DMS::InternalDecode: strings of at most 12 characters, loops fully unwound (bounded stand-in, not a proof for longer strings)'],
+        not_decided=['formatter output and encode->decode round trip (ostringstream)', 'DMS::Decode symbol substitution and splitting at internal signs (std::string editing)',
+                     'command-line tools: one output line per input line'],
+    ),
     'C16': dict(
         level='proof',
         level_text='Bit-exact IEEE facts about the short floating-point primitives, for all arguments: TwoSum is an error-free transformation (float), '
